@@ -296,8 +296,8 @@ PROPS = {
     ),
     "C05": dict(
         level="proof",
-        modules=["Exmex.Props.Reach", "Exmex.Props.ReachCorollaries", "Exmex.Props.C05", "Exmex.Props.C09", "Exmex.Props.C02Deep", "Exmex.Props.C03"],
-        theorems=["Exmex.Reach.reach_inv", "Exmex.Reach.reach_partial_sound", "Exmex.C05.partial_sound", "Exmex.C05.partial_norule", "Exmex.C05.Demo.demo", "Exmex.C09.partial_preserves", "Exmex.C09.partialIter_sound_single",
+        modules=["Exmex.Props.Tie", "Exmex.Props.Reach", "Exmex.Props.ReachCorollaries", "Exmex.Props.C05", "Exmex.Props.C09", "Exmex.Props.C02Deep", "Exmex.Props.C03"],
+        theorems=["Exmex.Tie.diff_rule_names", "Exmex.Reach.reach_inv", "Exmex.Reach.reach_partial_sound", "Exmex.C05.partial_sound", "Exmex.C05.partial_norule", "Exmex.C05.Demo.demo", "Exmex.C09.partial_preserves", "Exmex.C09.partialIter_sound_single",
                   "Exmex.C09.flat_partialIter_single_sound", "Exmex.C02.deep_compile_sound", "Exmex.C03.fromDeep_sound"],
         level_text=("kernel-checked (partial_sound): for every deep expression over + - * / ^ and the differentiable unary operators, every variable index and every "
                     "assignment, the expression returned by partial differentiation has the same variable list and evaluates to the derivative component of evaluating the "
@@ -334,8 +334,8 @@ PROPS = {
     ),
     "C18": dict(
         level="proof",
-        modules=["Exmex.Props.C18", "Exmex.Props.C18Dual", "Exmex.Props.C05", "Exmex.Props.C16"],
-        theorems=["Exmex.C18.cmp_untouched", "Exmex.C18.piecewise_if", "Exmex.C18.piecewise_else", "Exmex.C18.no_rule_is_error", "Exmex.C16.if_else",
+        modules=["Exmex.Props.Tie", "Exmex.Props.C18", "Exmex.Props.C18Dual", "Exmex.Props.C05", "Exmex.Props.C16"],
+        theorems=["Exmex.Tie.diff_rule_names", "Exmex.C18.cmp_untouched", "Exmex.C18.piecewise_if", "Exmex.C18.piecewise_else", "Exmex.C18.no_rule_is_error", "Exmex.C16.if_else",
                   "Exmex.C18.cmp_carried", "Exmex.C18.piecewise_dual", "Exmex.C18.partial_sound_piecewise", "Exmex.C05.partial_sound"],
         level_text=("kernel-checked: C05.partial_sound covers expressions with comparisons and `if`/`else` (the dual-number reference carries a comparison unchanged and "
                     "differentiates `x if c`, `y else z` operand-wise); cmp_carried, piecewise_dual: for `(a if c) else b` with a carried condition the reference value and "
